@@ -253,6 +253,65 @@ def oracle_c13(r):
     return out
 
 
+# --------------------------------------------------------------------------- exact twins (C13)
+
+TWIN_HEADER = """From Coq Require Import ZArith NArith List.
+From V Require Import OptTwin.
+Import ListNotations.
+Open Scope Z_scope.
+"""
+
+
+def twin_run(chk, rows):
+    """taiko / catch accuracy-only traces against the exact-arithmetic twins whose global optimality
+    is a theorem for every object count (Proofs/OptTwinProofs.v)"""
+    taiko, catch, byid = [], [], {}
+    for k, r in enumerate(rows):
+        if r.get("acc01") is None or "out" not in r:
+            continue
+        f = fbits(r["acc01"])
+        if f != f or f in (float("inf"), float("-inf")):
+            continue
+        fr = Fraction(f)
+        a, b = fr.numerator, fr.denominator
+        m, o, s = r["mode"], r["opts"], r["out"]
+        if m == 1 and o[1] is None and o[2] is None:
+            T = shape(r)
+            if T > 0:
+                taiko.append(f"({k}%N, {T}, {s[3]}, {z(a)}, {b}, {s[1]})")
+                byid[k] = r
+        elif m == 2 and o[3] is None and o[4] is None:
+            fd = s[1] + s[2]
+            if fd + r["attrs"][2] + s[5] > 0:
+                catch.append(f"({k}%N, {fd}, {r['attrs'][2]}, {s[5]}, {z(a)}, {b}, {s[3]})")
+                byid[k] = r
+    bodies = []
+    for name, cs in (("taiko_twin_bad", taiko), ("catch_twin_bad", catch)):
+        for i in range(0, len(cs), 1500):
+            bodies.append("Definition cases := [\n  " + ";\n  ".join(cs[i:i + 1500]) + "].\n"
+                          f"Eval vm_compute in {name} cases.")
+    if not bodies:
+        return
+    for (o, e) in coq_eval(f"{chk.pid}-twin", bodies, TWIN_HEADER):
+        if e is not None:
+            chk.broken_obligation("correspondence", "coqc failed on twin cases: " + e)
+            continue
+        bad = parse_eval_list(o)
+        if bad is None:
+            chk.broken_obligation("correspondence", "unparsable coqc output: " + o[-800:])
+            continue
+        for cid, _ in bad:
+            r = byid[cid]
+            chk.cov["correspondence_mismatches"] += 1
+            chk.broken_obligation("correspondence",
+                                  f"{MODES[r['mode']]}: the generated state is farther from the target accuracy than the "
+                                  f"exact twin's choice (which is proved optimal for every object count)", {"case": r})
+    chk.cov.setdefault("traces_validated_against_twin", 0)
+    chk.cov["traces_validated_against_twin"] += len(taiko) + len(catch)
+    chk.dist("twin.taiko", len(taiko))
+    chk.dist("twin.catch", len(catch))
+
+
 # --------------------------------------------------------------------------- runner
 
 def run(chk, binary, jobs, oracles, model=True, sample_limit=3):
